@@ -125,11 +125,19 @@ func buildDRA(q reqSpec) *api.DRAResource {
 	if len(q.caps) > 0 {
 		d.Capacity = map[string]resource.Quantity{}
 		for _, c := range q.caps {
-			d.Capacity[dimName(c.dim)] = *resource.NewMilliQuantity(c.milli, resource.DecimalSI)
+			q := *resource.NewMilliQuantity(c.milli, resource.DecimalSI)
+			if decBacked(c) {
+				q.AsDec() // same value, held behind an *inf.Dec (as a parsed "1.5Gi"): a struct copy shares it
+			}
+			d.Capacity[dimName(c.dim)] = q
 		}
 	}
 	return d
 }
+
+// decBacked: which capacities are built in big-decimal form — decided by the tokens (about two in three), so
+// that every DRA selector sees both representations without a change of the wire format or of the model
+func decBacked(c capSpec) bool { return (c.milli+c.dim)%3 != 0 }
 
 func buildReq(req []reqSpec) map[string]*api.DRAResource {
 	m := map[string]*api.DRAResource{}
@@ -230,21 +238,37 @@ func snapshotTasks(job *api.JobInfo) string {
 	return s
 }
 
+func snapshotTokens(job *api.JobInfo) []int64 {
+	keys := []string{}
+	for uid := range job.Tasks {
+		keys = append(keys, string(uid))
+	}
+	sort.Strings(keys)
+	out := []int64{}
+	for _, k := range keys {
+		out = append(out, encDRAMap(job.Tasks[api.TaskID(k)].DRAResreq)...)
+	}
+	return out
+}
+
 func runMinDRA(j jobSpec) []int64 {
+	return encDRAMap(buildJob(j).GetMinDRAResources())
+}
+
+func lenPrefixed(xs []int64) []int64 { return append([]int64{int64(len(xs))}, xs...) }
+
+// lawsUnchangedMinDRA: the tasks' requests observed after GetMinDRAResources equal those observed before (the
+// method multiplies and adds capacities: it must work on copies), and a second call gives the same answer
+func lawsUnchangedMinDRA(j jobSpec, law func(lsel int, lin []int64, sig string)) {
 	job := buildJob(j)
-	before := snapshotTasks(job)
-	got := encDRAMap(job.GetMinDRAResources())
-	// the method is a pure reading: calling it again gives the same answer (map iteration order
-	// must not matter) and the tasks' requests are untouched
-	for i := 0; i < 3; i++ {
-		if again := encDRAMap(job.GetMinDRAResources()); fmt.Sprint(again) != fmt.Sprint(got) {
-			panic(fmt.Sprintf("GetMinDRAResources is not deterministic: %v then %v", got, again))
-		}
-	}
-	if snapshotTasks(job) != before {
-		panic("GetMinDRAResources modified a task's DRA request")
-	}
-	return got
+	before := snapshotTokens(job)
+	r1 := encDRAMap(job.GetMinDRAResources())
+	after := snapshotTokens(job)
+	law(108, append(lenPrefixed(before), lenPrefixed(after)...), "")
+	r2 := encDRAMap(job.GetMinDRAResources())
+	r3 := encDRAMap(job.GetMinDRAResources())
+	law(108, append(lenPrefixed(r1), lenPrefixed(r2)...), "")
+	law(108, append(lenPrefixed(r2), lenPrefixed(r3)...), "")
 }
 
 func runDRAOps(in []int64) []int64 {
@@ -264,22 +288,46 @@ func runDRAOps(in []int64) []int64 {
 		}
 		o = buildDRA(oq)
 	}
-	d0 := fmt.Sprint(encDRA(d))
-	o0 := ""
-	if o != nil {
-		o0 = fmt.Sprint(encDRA(o))
-	}
 	a := d.Clone()
 	a.Add(o)
 	s := d.Clone()
 	s.Sub(o)
-	// Clone shares no storage: the operations on the clones left the originals alone
-	if fmt.Sprint(encDRA(d)) != d0 || (o != nil && fmt.Sprint(encDRA(o)) != o0) {
-		panic("DRAResource.Clone shares storage with its source (or Add/Sub changed the argument)")
-	}
 	out := append(tag(1), encDRA(a)...)
 	out = append(out, tag(2)...)
 	return append(out, encDRA(s)...)
+}
+
+// lawsUnchangedDRAOps: receiver's source and ARGUMENT observed after clone.Add(o) applied twice (the first Add
+// adopts the argument's quantities for dimensions the receiver lacks, the second adds into them) and clone.Sub(o)
+// equal what was observed before
+func lawsUnchangedDRAOps(in []int64, law func(lsel int, lin []int64, sig string)) {
+	r := &tokReader{t: in}
+	dq := reqSpec{count: r.next()}
+	n := int(r.next())
+	for i := 0; i < n; i++ {
+		dq.caps = append(dq.caps, capSpec{r.next(), r.next()})
+	}
+	d := buildDRA(dq)
+	if r.next() == 0 {
+		return
+	}
+	oq := reqSpec{count: r.next()}
+	n = int(r.next())
+	for i := 0; i < n; i++ {
+		oq.caps = append(oq.caps, capSpec{r.next(), r.next()})
+	}
+	o := buildDRA(oq)
+	before := append(encDRA(d), encDRA(o)...)
+	a := d.Clone()
+	a.Add(o)
+	a.Add(o)
+	e := &api.DRAResource{} // a receiver without any capacity adopts every quantity of the argument
+	e.Add(o)
+	e.Add(o)
+	s := d.Clone()
+	s.Sub(o)
+	after := append(encDRA(d), encDRA(o)...)
+	law(108, append(lenPrefixed(before), lenPrefixed(after)...), "")
 }
 
 // bumped: the same job with larger counts, larger positive multiplicities and a larger MinAvailable
@@ -358,6 +406,7 @@ func hashTokens(in []int64) uint64 {
 func lawsMinDRA(in, got []int64, law func(lsel int, lin []int64, sig string)) {
 	law(105, append(append([]int64{}, in...), got...), "")
 	j := parseJob(&tokReader{t: in})
+	lawsUnchangedMinDRA(j, law)
 	j2 := bumped(j, hashTokens(in))
 	got2 := runMinDRA(j2)
 	lin := append(append([]int64{}, in...), j2.tokens()...)
@@ -746,6 +795,20 @@ func lawsCloneMutate(in []int64, law func(lsel int, lin []int64, sig string)) {
 	lin := append([]int64{}, in[:r.i]...) // the source d as given
 	lin = append(append(append(append(lin, before...), a1...), a2...), a3...)
 	law(118, lin, "")
+	// the ARGUMENT after the adopting Add (twice) and Sub = the argument before
+	r = &tokReader{t: in}
+	dc, dcaps := parseDRAB(r)
+	oc, ocaps := parseDRAB(r)
+	d, o := buildDRAB(dc, dcaps), buildDRAB(oc, ocaps)
+	ob := encDRA(o)
+	c := d.Clone()
+	c.Add(o)
+	c.Add(o)
+	e := &api.DRAResource{}
+	e.Add(o)
+	e.Add(o)
+	c.Sub(o)
+	law(108, append(lenPrefixed(ob), lenPrefixed(encDRA(o))...), "")
 }
 
 func genCloneMutate(r *vh.Rng) []int64 {
